@@ -148,6 +148,26 @@ theorem iterD_sound (I : Interp) (hI : Smooth I) (x : Nat) (e : Ex) (h : e.total
 @[simp] theorem inc4_3 (a b c d : Nat) : inc ![a,b,c,d] 3 = ![a,b,c,d+1] := by
   funext i; fin_cases i <;> simp [inc]
 
+@[simp] theorem inc5_0 (a b c d e : Nat) : inc ![a,b,c,d,e] 0 = ![a+1,b,c,d,e] := by
+  funext i; fin_cases i <;> simp [inc]
+@[simp] theorem inc5_1 (a b c d e : Nat) : inc ![a,b,c,d,e] 1 = ![a,b+1,c,d,e] := by
+  funext i; fin_cases i <;> simp [inc]
+@[simp] theorem inc5_2 (a b c d e : Nat) : inc ![a,b,c,d,e] 2 = ![a,b,c+1,d,e] := by
+  funext i; fin_cases i <;> simp [inc]
+@[simp] theorem inc5_3 (a b c d e : Nat) : inc ![a,b,c,d,e] 3 = ![a,b,c,d+1,e] := by
+  funext i; fin_cases i <;> simp [inc]
+@[simp] theorem inc5_4 (a b c d e : Nat) : inc ![a,b,c,d,e] 4 = ![a,b,c,d,e+1] := by
+  funext i; fin_cases i <;> simp [inc]
+
+theorem eval_vec5 (I : Interp) (ρ : Nat → ℝ) (a b c d e : Ex) :
+    (fun i => Ex.eval I ρ (![a,b,c,d,e] i)) =
+      ![a.eval I ρ, b.eval I ρ, c.eval I ρ, d.eval I ρ, e.eval I ρ] := by
+  funext i; fin_cases i <;> rfl
+theorem subst_vec5 (v : Nat) (s a b c d e : Ex) :
+    (fun i => Ex.subst v s (![a,b,c,d,e] i)) =
+      ![Ex.subst v s a, Ex.subst v s b, Ex.subst v s c, Ex.subst v s d, Ex.subst v s e] := by
+  funext i; fin_cases i <;> rfl
+
 theorem eval_vec1 (I : Interp) (ρ : Nat → ℝ) (a : Ex) :
     (fun i => Ex.eval I ρ (![a] i)) = ![a.eval I ρ] := by
   funext i; fin_cases i; rfl
